@@ -389,9 +389,11 @@ def tocart_case(draw, name, n=None):
     kw = {}
     if _maybe(draw, 0.6):
         kw["mode"] = draw(st.sampled_from(["split", "duplicate", "half"]))
-    if _maybe(draw):
-        kw["prior"] = draw(st.sampled_from(["uniform", None]))
-    b = draw(any_bounds())
+    if _maybe(draw, 0.5):
+        kw["prior"] = draw(st.sampled_from(["uniform", "uniform", None]))
+    b = draw(st.one_of(
+        any_bounds(), any_bounds(),
+        st.sampled_from([[-5.0, -2.0], [-1.0, 0.0], [0.0, 1.0]])))
     params, bounds, roles = ["chi_a"], {"chi_a": b}, {"chi_a": "angle"}
     n = n or draw(st.integers(6, 16))
     x = {"chi_a": draw(points(b[0], b[1], n))}
